@@ -660,7 +660,14 @@ static void Disassemble_68(
             pSymbolPrefix = NULL;
         }
         pOp = MakeSymbolic(OpAddr, 2, pSymbolPrefix, NumBuf, sizeof(NumBuf));
-        as_snprintf(pInfo->SrcLine, sizeof(pInfo->SrcLine), "%s\t%s", pOpcode->Memo, pOp);
+
+        /* an address in the direct page would be assembled in the shorter direct
+           form (opcodes $9x/$Dx): ask for the extended form that is there */
+
+        as_snprintf(
+                pInfo->SrcLine, sizeof(pInfo->SrcLine), "%s\t%s%s", pOpcode->Memo,
+                ((OpAddr < 0x100) && !pSymbolPrefix && ((Opcode & 0xb0) == 0xb0)) ? ">" : "",
+                pOp);
         break;
     case eImmediate:
         if (!RetrieveData(Address + 1, Data, pOpcode->OpSize + 1)) {
